@@ -188,3 +188,99 @@ pub fn pick_samples<T: Clone>(v: &[T]) -> Vec<T> {
     }
     out
 }
+
+// ---------------------------------------------------------------------------------------------------
+// listed findings: witnesses
+
+use crate::pool::{Obs, Runner};
+
+/// Runs the witness of a finding on the real interpreter.  A witness is
+/// {"source": text, "modules": {path: text}, "expect_out": [lines], "expect_end": "ok" | prefix of the
+/// first error message, "gc": optional GcSpec, "expect_no_uaf": bool}; it *fails* (the defect is still
+/// there) when the observation differs from what the property requires.
+pub fn witness_fails(runner: &mut Runner, f: &Finding) -> Option<bool> {
+    let w = &f.witness;
+    let source = w.get("source")?.as_str()?.to_string();
+    let mut modules = std::collections::BTreeMap::new();
+    if let Some(m) = w.get("modules").and_then(|m| m.as_object()) {
+        for (k, v) in m {
+            modules.insert(k.clone(), v.as_str().unwrap_or("").to_string());
+        }
+    }
+    let snippets: Vec<String> = match w.get("snippets").and_then(|s| s.as_array()) {
+        Some(a) => a.iter().map(|x| x.as_str().unwrap_or("").to_string()).collect(),
+        None => vec![source],
+    };
+    let gc: Option<proto::GcSpec> = w.get("gc").and_then(|g| serde_json::from_value(g.clone()).ok());
+    let mut req = proto::Request {
+        op: "run".into(),
+        snippets,
+        modules,
+        fuel: Some(5_000_000),
+        gc,
+        want: vec!["uaf".into()],
+        ..Default::default()
+    };
+    let obs = runner.call(&mut req);
+    let resp = match &obs {
+        Obs::Resp(r) => r,
+        _ => return Some(true), // crash / hang: certainly not what the property requires
+    };
+    if w.get("expect_no_uaf").and_then(|b| b.as_bool()).unwrap_or(false) && !resp.uaf.is_empty() {
+        return Some(true);
+    }
+    let last = resp.results.last()?;
+    let all_out: Vec<String> = resp.results.iter().flat_map(|r| r.out.iter().cloned()).collect();
+    if let Some(exp) = w.get("expect_out").and_then(|e| e.as_array()) {
+        let exp: Vec<String> = exp.iter().map(|x| x.as_str().unwrap_or("").to_string()).collect();
+        if exp != all_out {
+            return Some(true);
+        }
+    }
+    let end = w.get("expect_end").and_then(|e| e.as_str()).unwrap_or("ok");
+    let ok = match &last.outcome {
+        proto::Outcome::Ok => end == "ok",
+        proto::Outcome::Err { messages, .. } => end != "ok" && messages.get(0).map(|m| m.starts_with(end)).unwrap_or(false),
+        proto::Outcome::Panic { .. } => false,
+    };
+    Some(!ok)
+}
+
+/// Open findings of a property whose witness still fails (only these can have cases attributed);
+/// fills `report.notes` for stale or unrunnable ones.
+pub fn active_findings(ctx: &Ctx, report: &mut Report) -> Vec<Finding> {
+    let mut runner = Runner::new(ctx.runner_checked.clone());
+    let mut out = Vec::new();
+    for f in load_findings(ctx) {
+        if f.property != ctx.id {
+            continue;
+        }
+        match witness_fails(&mut runner, &f) {
+            Some(fails) => {
+                if f.status == "open" {
+                    if fails {
+                        out.push(f);
+                    } else {
+                        report.notes.push(format!("stale finding {}: its witness no longer fails; nothing is attributed to it", f.id));
+                    }
+                } else if fails {
+                    // a fixed defect that came back is an ordinary violation
+                    report.violations.push((
+                        format!("regression of fixed finding {} ({}): its witness fails again", f.id, f.title),
+                        serde_json::json!({"finding": f.id, "witness": f.witness}),
+                    ));
+                }
+            }
+            None => report.notes.push(format!("finding {} has no runnable witness", f.id)),
+        }
+    }
+    out
+}
+
+/// Record the outcome of attribution: every active finding is printed (its witness reproduced), with the
+/// number of enumerated cases attributed to it.
+pub fn record_known(report: &mut Report, active: &[Finding], attributed: &std::collections::BTreeMap<String, usize>) {
+    for f in active {
+        report.known.push((f.id.clone(), f.title.clone(), attributed.get(&f.id).copied().unwrap_or(0)));
+    }
+}
